@@ -1,17 +1,16 @@
 (* C06 - a refused event has no effect (engine level).  Statements only.
-   The unrestricted frame statement is FALSE of the faithful model (and of the code) in two classes, which are the known
-   findings; outside them it is proved for every event in every client state. *)
-From MDK Require Import Base.Prelude Base.AMap Mdk.Engine Mdk.EngineSpec Mdk.EngineProofs.
+   The unrestricted frame statement is FALSE of the faithful model (and of the code) in one class, which is the known
+   finding; outside it, it is proved for every event in every client state.  (A second class - an admin holding a pending
+   commit stored a leave proposal before the auto-commit failed - was fixed in the code and is gone from the model.) *)
+From MDK Require Import Base.Prelude Base.AMap Mdk.Engine Mdk.EngineSpec Mdk.EngineProofs Mdk.EngineProofs5.
 
-(* known classes: (1) the WrongEpoch arm rolls back before re-processing and the candidate is then refused;
-                  (2) an admin holding a pending commit stores a leave proposal before the auto-commit fails *)
+(* known class: the WrongEpoch arm rolls back before re-processing and the candidate is then refused *)
 Definition Known_rollback_then_refused (c : client) (e : event) : Prop := rollbacks (fst (deliver c e)) <> rollbacks c.
-Definition Known_leave_to_pending_admin (c : client) (e : event) : Prop :=
-  e_kind e = 2 /\ is_admin c = true /\ k_pending (kc c) <> None.
+(* (removed: fixed in the code, see known_findings fixed entry) *)
 
 Theorem C06_refusal_frame : forall c e,
   refused (snd (deliver c e)) = true ->
-  ~ Known_rollback_then_refused c e -> ~ Known_leave_to_pending_admin c e ->
+  ~ Known_rollback_then_refused c e ->
   proj (fst (deliver c e)) = proj c.
 Proof. exact refusal_frame. Qed.
 Print Assumptions C06_refusal_frame.
@@ -19,10 +18,17 @@ Print Assumptions C06_refusal_frame.
 Theorem C06_rollback_then_refused_witness : exists c e,
   Known_rollback_then_refused c e /\ refused (snd (deliver c e)) = true /\ proj (fst (deliver c e)) <> proj c.
 Proof. exact rollback_then_refused_witness. Qed.
-Theorem C06_leave_to_pending_admin_witness : exists c e,
-  Known_leave_to_pending_admin c e /\ refused (snd (deliver c e)) = true /\ proj (fst (deliver c e)) <> proj c.
-Proof. exact leave_to_pending_admin_witness. Qed.
-Print Assumptions C06_leave_to_pending_admin_witness.
+Print Assumptions C06_rollback_then_refused_witness.
+(* (removed: fixed in the code, see known_findings fixed entry) *)
+
+(* a leave proposal that reaches an admin whose own commit is pending is queued, and says so *)
+Theorem C06_leave_to_pending_admin_queued : forall c e r,
+  e_kind e = 2 -> e_author e <> me c -> is_admin c = true -> k_pending (kc c) <> None ->
+  existsb (N.eqb (100000 + e_id e)) (k_seen (kc c)) = false ->
+  snd (leave_here c e r) = RPending /\ k_pending (kc (fst (leave_here c e r))) = k_pending (kc c) /\
+  k_props (kc (fst (leave_here c e r))) = k_props (kc c) ++ [e_id e].
+Proof. exact leave_to_pending_admin_queued. Qed.
+Print Assumptions C06_leave_to_pending_admin_queued.
 
 (* the model is total: every event in every state yields a result (no stuck state) - by construction of `deliver` *)
 Theorem C06_total : forall c e, exists c' r, deliver c e = (c', r).
